@@ -309,6 +309,20 @@ example : LifeOk 1 (1, 0, 0) false (mixedProgs.getD 1 []) := by
 view of the hub outcome (`view`).  The theorems below are about programs written in socket-level operations
 (`sprogs`), run on the hub transition system through `compileProg`, under every interleaving. -/
 
+/-- `send_snapshots_value` (value-snapshot semantics, made explicit): the value a receiver gets is the value the
+message had AT THE SEND ACTION, whatever the sender does to its message object afterwards.  In the model a socket-
+level send carries the values (`sendStructured rn id h p` = `json.dumps` at call time, an immutable string) and no
+step ever rewrites a queued or callback-stored value: a queue only grows at its tail, by exactly the value carried
+by the sending operation's program counter, and shrinks at its head; a callback store only grows at its tail.
+(That the real code takes this snapshot — and does not share one mutable object between sender, queue and
+receiver — is what the `value_snapshot_histories` stream of the harness checks on the real sockets.) -/
+theorem send_snapshots_value (k : Key) (s s' : State) (tid : Nat) (h : step s tid = some s') :
+    (s'.msgs k = s.msgs k ∨ (∃ m more k0, (s.threads tid).pc = .sAppend k0 m more ∧ s'.msgs k = s.msgs k ++ [m]) ∨
+      (∃ m, s.msgs k = m :: s'.msgs k)) ∧
+    (s'.cbStore k = s.cbStore k ∨
+      (∃ m more k0, (s.threads tid).pc = .sCall k0 m more ∧ s'.cbStore k = s.cbStore k ++ [m])) :=
+  ⟨msgs_step_shape k s s' tid h, cbStore_step_shape k s s' tid h⟩
+
 /-- `structured_roundtrip`: what `recv_structured` returns for a message produced by `send_structured` is that
 message; `recv` returns a string as it was sent; and in every case the returned value determines the wire
 (nothing is lost or altered by the (de)serialisation — a string that is no JSON message is reported as such) -/
